@@ -46,6 +46,8 @@ type Outcome struct {
 	Exists map[string]bool   `json:"exists"` // for every command's new id and every final value: present in the repository afterwards
 	Err    string            `json:"err,omitempty"`
 	Panic  string            `json:"panic,omitempty"`
+	Hint   int               `json:"applied_mask_from_call_log"` // -1: none; attribution only
+	Log    []refOp           `json:"ref_calls,omitempty"`
 }
 
 // Viol is one clause of the property that an outcome cannot be explained without breaking.
@@ -81,6 +83,8 @@ func explain(cs *Case, o *Outcome) (best []Viol, ok bool) {
 	for _, c := range cs.Cmds {
 		dupName[c.Name]++
 	}
+	var hinted []Viol
+	hintOK := false
 	for mask := 0; mask < 1<<m; mask++ {
 		state := map[string]string{}
 		for k, v := range cs.Init {
@@ -128,6 +132,9 @@ func explain(cs *Case, o *Outcome) (best []Viol, ok bool) {
 			continue
 		}
 		vs = append(vs, reportViols(cs, o, mask, absentAt, dupName)...)
+		if mask == o.Hint && o.Server != "git" {
+			hinted, hintOK = vs, true
+		}
 		pop := bits.OnesCount(uint(mask))
 		if bestCost < 0 || len(vs) < bestCost || (len(vs) == bestCost && pop > bestPop) {
 			bestCost, bestPop = len(vs), pop
@@ -136,6 +143,12 @@ func explain(cs *Case, o *Outcome) (best []Viol, ok bool) {
 	}
 	if bestCost < 0 {
 		return nil, false
+	}
+	// The verdict is the minimum over all explanations (observable behaviour only). When it is a
+	// violation and the server's own call log names an applied set that reproduces the final
+	// state, the clauses are attributed according to that set.
+	if bestCost > 0 && hintOK && len(hinted) > 0 {
+		return hinted, true
 	}
 	return best, true
 }
